@@ -124,14 +124,12 @@ func repeatW(w []rune, k int) []rune {
 }
 
 func loopCounts(m, n int) []int {
+	// a loop with a large minimum still gets its minimal witness (langMaxLen bounds the total length)
 	var ks []int
 	for _, k := range []int{m, m + 1, m + 2} {
-		if k <= n && k <= 12 {
+		if k <= n && (k <= 12 || k == m) && k <= langMaxLen {
 			ks = append(ks, k)
 		}
-	}
-	if len(ks) == 0 && m <= 12 {
-		ks = []int{m}
 	}
 	return ks
 }
@@ -203,6 +201,13 @@ func (g *langGen) gen(n *syntax.RegexNode, depth int) [][]rune {
 		}
 		join := func(pick func(i int) []rune) []rune {
 			var w []rune
+			if n.Options&syntax.RightToLeft != 0 {
+				// a right-to-left concatenation keeps its children in matching order, i.e. last text first
+				for i := len(kid) - 1; i >= 0; i-- {
+					w = append(w, pick(i)...)
+				}
+				return w
+			}
 			for i := range kid {
 				w = append(w, pick(i)...)
 			}
@@ -265,6 +270,13 @@ func (g *langGen) gen(n *syntax.RegexNode, depth int) [][]rune {
 			out = [][]rune{{}}
 		}
 		return capW(out)
+	case syntax.NtPosLook:
+		// a positive lookahead contributes no text of its own, but the text it asks for must follow: offer its
+		// witnesses as if they were consumed (the node after it then usually matches a prefix of them)
+		if len(n.Children) > 0 && n.Options&syntax.RightToLeft == 0 {
+			return capW(append([][]rune{{}}, g.gen(n.Children[0], depth+1)...))
+		}
+		return [][]rune{{}}
 	case syntax.NtNothing:
 		return nil
 	default:
